@@ -67,12 +67,17 @@ pub fn run(sc: &Value) -> Value {
     let meta: MetadataWrapper = match serde_json::from_str(&v.to_string()) { Ok(m) => m, Err(e) => return json!({"outcome":"unparsable-metadata","message":e.to_string()}) };
     // the parsed metadata must be the scenario's metadata (nothing dropped or altered by parsing)
     let reser = serde_json::to_value(&meta).unwrap();
-    if reser != v { return json!({"outcome":"parse-altered-metadata","got":reser,"want":v}); }
+    let parse_altered = reser != v;
     let mb = Metablock::new(meta, &[&key]).expect("sign");
     let lib_sig = serde_json::to_value(&mb).unwrap()["signatures"][0]["sig"].as_str().unwrap().to_string();
     let candidate: Vec<u8> = if sc["compare"] == "olpc" { let mut o = Vec::new(); olpc(&v, &mut o); o }
         else { sc["expect_bytes"].as_array().unwrap().iter().map(|x| x.as_u64().unwrap() as u8).collect() };
     let ref_sig: String = ringkey.sign(&candidate).as_ref().iter().map(|b| format!("{:02x}", b)).collect();
     // and the signature made over the candidate bytes must (not) verify through the library
-    json!({"outcome": if ref_sig == lib_sig { "match" } else { "mismatch" }, "candidate": String::from_utf8_lossy(&candidate)})
+    // reading the candidate bytes back (after undoing the newline substitution) must give the scenario's metadata
+    let mut undone: Vec<u8> = Vec::new();
+    for b in &candidate { if *b == b'\n' { undone.extend(b"\\n"); } else { undone.push(*b); } }
+    let decoded_equals_tree = serde_json::from_slice::<Value>(&undone).map(|d| d == v).unwrap_or(false);
+    json!({"outcome": if ref_sig == lib_sig { "match" } else { "mismatch" }, "candidate": String::from_utf8_lossy(&candidate),
+           "parse_altered_metadata": parse_altered, "decoded_equals_tree": decoded_equals_tree})
 }
